@@ -21,6 +21,7 @@ package main
 // collector, all read from the real stores.
 
 import (
+	"encoding/json"
 	"flag"
 	"fmt"
 	"hash/crc32"
@@ -41,6 +42,8 @@ import (
 	ethcrypto "github.com/ethereum/go-ethereum/crypto"
 	"time"
 
+	upgradetypes "github.com/cosmos/cosmos-sdk/x/upgrade/types"
+	v182 "github.com/haqq-network/haqq/app/upgrades/v1.8.2"
 	"github.com/haqq-network/haqq/utils"
 	evmtypes "github.com/haqq-network/haqq/x/evm/types"
 	vestingtypes "github.com/haqq-network/haqq/x/vesting/types"
@@ -91,8 +94,32 @@ type snCase struct {
 	Class string `json:"class,omitempty"`
 }
 
+// snCfg: the seed and the WORLD of a scenario (SigNonce!Worlds): what the fee market charges,
+// how the accounts of the signers are stored, how the chain state came to be.  The empty string
+// is the default of each dimension ("priced", "eth", "genesis").
 type snCfg struct {
-	Seed int64 `json:"seed"`
+	Seed   int64  `json:"seed"`
+	Fees   string `json:"fees,omitempty"`   // priced | free (NoBaseFee, MinGasPrice 0; transactions carry no fee)
+	Accts  string `json:"accts,omitempty"`  // eth | base (s1, s2, r, v are plain BaseAccounts in the genesis)
+	Origin string `json:"origin,omitempty"` // genesis | migrated (x/evm state went through the in-place store migrations of a software upgrade)
+}
+
+func (c snCfg) free() bool { return c.Fees == "free" }
+
+// fields whose mutations need a non-zero fee to act on / that name who pays: cases of these
+// fields keep a priced transaction in a free world
+var snFeeFields = map[string]bool{"gasPrice": true, "tipCap": true, "feeCap": true, "feeAmount": true, "envFeeAmount": true,
+	"feePayer": true, "feeGranter": true, "envFeePayer": true, "envFeeGranter": true, "web3FeePayer": true, "web3FeePayerSig": true}
+
+// zeroFee: does the valid transaction of this case / order submission carry no fee at all?
+func (d *snEnv) zeroFee(field string) bool { return d.cfg.free() && !snFeeFields[field] }
+
+// fee of a Cosmos transaction with the given gas limit
+func (d *snEnv) fee(gas uint64, field string) sdk.Coins {
+	if d.zeroFee(field) {
+		return sdk.Coins{}
+	}
+	return snFee(gas)
 }
 
 type snScript struct {
@@ -112,6 +139,17 @@ type snEnv struct {
 	reverter, burner common.Address
 	tw    *TraceWriter
 	scn   int
+	// the scenario's chain went through the scheduled in-place upgrade before its first step
+	upgraded bool
+}
+
+// reset writes the first line of a scenario (and what was done to the chain before it)
+func (d *snEnv) reset(src string) {
+	d.tw.Emit(M{"ev": "reset", "scn": d.scn, "src": src, "cfg": d.cfg, "post": d.state()})
+	if d.upgraded {
+		vm := d.n.App.UpgradeKeeper.GetModuleVersionMap(d.n.Ctx())
+		d.tw.Emit(M{"ev": "setup", "scn": d.scn, "what": fmt.Sprintf("upgrade-scheduled:x/evm@3->%d", vm[evmtypes.ModuleName]), "ok": true, "post": d.state()})
+	}
 }
 
 func snIsEth(route string) bool {
@@ -139,16 +177,96 @@ func newSnEnv(cfg snCfg, tw *TraceWriter, scn int) *snEnv {
 	g := DefaultGenesisCfg(cfg.Seed)
 	g.NVals = 1
 	g.Coinomics = false
+	if cfg.free() {
+		g.NoBaseFee = true
+		g.MinGasPrice = "0"
+	}
 	w := NewWorld(g)
-	d := &snEnv{cfg: cfg, w: w, n: NewNode(w, dbm.NewMemDB()), rnd: rand.New(rand.NewSource(cfg.Seed)),
+	var base []Key
+	if cfg.Accts == "base" {
+		for _, name := range []string{"s1", "s2", "r", "v"} {
+			base = append(base, w.Acct(snAcct[name]))
+		}
+	}
+	d := &snEnv{cfg: cfg, w: w, n: snNewNode(w, dbm.NewMemDB(), base), rnd: rand.New(rand.NewSource(cfg.Seed)),
 		built: map[string][]byte{}, tw: tw, scn: scn}
 	// the CheckTx state is created from the committed store: before the first Commit it does not
 	// contain the genesis, so every scenario starts after an empty first block
 	d.begin()
+	if cfg.Origin == "migrated" {
+		if err := d.migrate(); err != nil {
+			panic(err)
+		}
+	}
 	d.n.EndBlock()
 	d.n.Commit()
 	d.begin()
+	if cfg.Origin == "migrated" {
+		// the upgrade handler ran in this BeginBlock; the scenario starts on the block after it
+		vm := d.n.App.UpgradeKeeper.GetModuleVersionMap(d.n.Ctx())
+		if vm[evmtypes.ModuleName] <= 3 {
+			panic(fmt.Sprintf("the upgrade did not run: x/evm at consensus version %d", vm[evmtypes.ModuleName]))
+		}
+		d.n.EndBlock()
+		d.n.Commit()
+		d.begin()
+	}
 	return d
+}
+
+// snNewNode is chainkit's NewNode with the accounts of `base` stored as plain cosmos BaseAccounts
+// in the genesis (as accounts imported from a genesis file are), not as EthAccounts.
+func snNewNode(w *World, db dbm.DB, base []Key) *Node {
+	n := &Node{W: w, DB: db, App: openApp(db), Time: GenesisTime}
+	gs, _ := w.GenesisState()
+	if len(base) > 0 {
+		cdc := encCfg.Codec
+		var ag authtypes.GenesisState
+		cdc.MustUnmarshalJSON(gs[authtypes.ModuleName], &ag)
+		accs, err := authtypes.UnpackAccounts(ag.Accounts)
+		if err != nil {
+			panic(err)
+		}
+		for i, a := range accs {
+			for _, k := range base {
+				if a.GetAddress().Equals(k.Addr) {
+					accs[i] = authtypes.NewBaseAccount(k.Addr, nil, 0, 0)
+				}
+			}
+		}
+		if ag.Accounts, err = authtypes.PackAccounts(accs); err != nil {
+			panic(err)
+		}
+		gs[authtypes.ModuleName] = cdc.MustMarshalJSON(&ag)
+	}
+	stateBytes, err := json.Marshal(gs)
+	if err != nil {
+		panic(err)
+	}
+	n.App.InitChain(abci.RequestInitChain{ChainId: ChainID, Time: GenesisTime, Validators: []abci.ValidatorUpdate{},
+		ConsensusParams: w.ConsensusParams(), AppStateBytes: stateBytes, InitialHeight: 1})
+	return n
+}
+
+// migrate puts the x/evm parameters where a chain at consensus version 3 of x/evm keeps them
+// (the x/params subspace; the module's own record is removed), declares that version in the
+// x/upgrade version map and schedules a software upgrade for the next block: its registered
+// handler runs the module manager's in-place store migrations (3->4->5->6) in BeginBlock, the
+// way a live chain is upgraded.  The parameter VALUES are the ones of the genesis.
+func (d *snEnv) migrate() error {
+	ctx, a := d.n.Ctx(), d.n.App
+	params := a.EvmKeeper.GetParams(ctx)
+	sub := a.GetSubspace(evmtypes.ModuleName)
+	sub.SetParamSet(ctx, &params)
+	ctx.KVStore(a.GetKey(evmtypes.StoreKey)).Delete(evmtypes.KeyPrefixParams)
+	vm := a.UpgradeKeeper.GetModuleVersionMap(ctx)
+	vm[evmtypes.ModuleName] = 3
+	a.UpgradeKeeper.SetModuleVersionMap(ctx, vm)
+	if err := a.UpgradeKeeper.ScheduleUpgrade(ctx, upgradetypes.Plan{Name: v182.UpgradeName, Height: ctx.BlockHeight() + 1}); err != nil {
+		return err
+	}
+	d.upgraded = true
+	return nil
 }
 
 func (d *snEnv) begin() { d.n.BeginBlock(BlockIn{DtMs: 5000, Proposer: 0}) }
@@ -312,6 +430,22 @@ func (d *snEnv) event(kind, target string) error {
 	periods := sdkvesting.Periods{{Length: length, Amount: amt}}
 	var msg sdk.Msg
 	switch kind {
+	case "touch":
+		// an Ethereum transaction of a third party pays 1 aISLM to the target: the EVM state
+		// commit re-writes the account object of everything the transaction touched
+		by = "g"
+		if target == "g" {
+			by = "v"
+		}
+		to := ethAddr(t)
+		bz, _, err := d.n.EthTxFor(d.key(by), &to, big.NewInt(1), 21000, nil)
+		if err != nil {
+			return err
+		}
+		r := d.n.Deliver(bz)
+		d.tw.Emit(M{"ev": "event", "scn": d.scn, "kind": kind, "target": target, "by": by, "ok": r.Code == 0, "err": snShort(r.Log),
+			"vesting": false, "pre": pre, "post": d.state()})
+		return nil
 	case "convert":
 		msg = vestingtypes.NewMsgConvertIntoVestingAccount(d.key(by).Addr, t.Addr, start, periods, periods, false, false, nil)
 	case "merge":
@@ -357,8 +491,17 @@ var snForeignSdk = []string{"haqq_11235-2", "haqq_11236-1", "haqq_54211-1", "cos
 
 // ethOpts are the contents of a plain Ethereum transfer of the given route.
 func (d *snEnv) ethOpts(route string, nonce uint64, to Key, amount *big.Int, gas uint64, data []byte, chain *big.Int) EthTxOpts {
+	return d.ethOptsF(route, nonce, to, amount, gas, data, chain, "")
+}
+
+// ethOptsF: in a free world the transaction offers no gas price at all (unless the case is about a fee field)
+func (d *snEnv) ethOptsF(route string, nonce uint64, to Key, amount *big.Int, gas uint64, data []byte, chain *big.Int, field string) EthTxOpts {
 	toA := ethAddr(to)
 	o := EthTxOpts{Type: snEthType(route), Nonce: nonce, To: &toA, Value: amount, Gas: gas, Data: data, ChainID: chain}
+	if d.zeroFee(field) {
+		o.GasPrice, o.FeeCap, o.TipCap = big.NewInt(0), big.NewInt(0), big.NewInt(0)
+		return o
+	}
 	switch o.Type {
 	case 0, 1:
 		o.GasPrice = big.NewInt(3_000_000_000)
@@ -417,7 +560,7 @@ func (d *snEnv) buildOrder(t *snTxRec) ([]byte, error) {
 			msgs = append(msgs, banktypes.NewMsgSend(k.Addr, rcpt.Addr, sdk.NewCoins(sdk.NewCoin(utils.BaseDenom, sdkmath.NewIntFromBigInt(amount)))))
 		}
 		o := snSdkOpts{Route: t.Route, Pub: k, Sign: k, ChainID: ChainID, AccNum: d.accNum(t.Signer), Seq: t.Nonce, Gas: 200000,
-			Fee: snFee(200000), Memo: "", TypedChain: d.n.App.EvmKeeper.ChainID().Uint64()}
+			Fee: d.fee(200000, ""), Memo: "", TypedChain: d.n.App.EvmKeeper.ChainID().Uint64()}
 		if t.Q == "foreign" {
 			o.ChainID = snForeignSdk[pick%len(snForeignSdk)]
 			o.TypedChain = snTypedChainOf(o.ChainID, o.TypedChain)
@@ -451,7 +594,7 @@ func (d *snEnv) orderAmount(t *snTxRec) string {
 }
 
 func (d *snEnv) runOrder(src string, steps []snStep) error {
-	d.tw.Emit(M{"ev": "reset", "scn": d.scn, "src": src, "cfg": d.cfg, "post": d.state()})
+	d.reset(src)
 	none := snCase{Route: "-", Field: "-", Mut: "-"}
 	for _, st := range steps {
 		switch st.Ev {
@@ -492,8 +635,12 @@ func snRandomOrder(r *rand.Rand, n int) []snStep {
 			steps = append(steps, snStep{Ev: "commit"})
 			continue
 		}
-		if i > 2 && r.Intn(7) == 0 {
+		if i > 2 && r.Intn(5) == 0 {
 			a := []string{"s1", "s2"}[r.Intn(2)]
+			if r.Intn(2) == 0 {
+				steps = append(steps, snStep{Ev: "event", Kind: "touch", Target: a})
+				continue
+			}
 			kind := "convert"
 			if vesting[a] {
 				kind = []string{"merge", "funder", "clawback", "back", "back"}[r.Intn(5)]
@@ -561,7 +708,7 @@ func snRandomOrder(r *rand.Rand, n int) []snStep {
 }
 
 func (d *snEnv) runMatrix(cases []snCase, rep int) error {
-	d.tw.Emit(M{"ev": "reset", "scn": d.scn, "src": "matrix", "cfg": d.cfg, "post": d.state()})
+	d.reset("matrix")
 	// g lets s1 and s2 pay fees from its account (fee-grant mutations)
 	for _, s := range []string{"s1", "s2"} {
 		msg, err := feegrant.NewMsgGrantAllowance(&feegrant.BasicAllowance{}, d.key("g").Addr, d.key(s).Addr)
@@ -640,7 +787,18 @@ func signonceMain(args []string) error {
 	for i := 0; i < *random; i++ {
 		scn++
 		s := *seed*1000003 + int64(i)
-		d := newSnEnv(snCfg{Seed: s}, tw, scn)
+		// random scenarios walk through the eight worlds
+		cfg := snCfg{Seed: s}
+		if i%2 == 1 {
+			cfg.Fees = "free"
+		}
+		if (i/2)%2 == 1 {
+			cfg.Accts = "base"
+		}
+		if (i/4)%2 == 1 {
+			cfg.Origin = "migrated"
+		}
+		d := newSnEnv(cfg, tw, scn)
 		if err := d.runOrder("random", snRandomOrder(rand.New(rand.NewSource(s)), *steps)); err != nil {
 			tw.Close()
 			return fmt.Errorf("random scenario %d: %w", scn, err)
